@@ -1116,13 +1116,26 @@ def array_history(rng):
     return init + copy_ + same, mut, dump_stmts(Y), dump_stmts(X)
 
 
+ARRAY_OPS = ['rock xx', 'rock xx with 1', 'rock xx with 2, "s"', 'roll xx', 'roll xx into dd', 'put 7 into xx at 0',
+             'put 8 into xx at 2', 'put 9 into xx at "k"', 'put 6 into xx at 0 at 1', 'put xx into yy', 'put yy into xx',
+             'put yy into xx at 1', 'put xx at 0 into dd', 'let xx at 0 be with 1', 'put 0 into xx', 'put "str" into xx',
+             'put xx at "k" into dd', 'rock yy with xx', 'roll yy into xx', 'join xx', 'cut dd into xx', 'put xx at 1 into xx',
+             'put xx into xx at 0', 'build xx up', 'put 0 over 0 into xx at 0', 'say xx is yy']
+ARRAY_INIT = 'rock xx\nrock yy with 3\nput 1 into dd\n'
+ARRAY_SAFE = 'say "=="\nsay xx\nsay yy\nsay dd\nsay xx is yy\n'
+# observations that fail on a value that cannot be indexed: one per run, after the safe ones
+ARRAY_RISKY = ['say xx at 0', 'say xx at 1', 'say xx at 2', 'say xx at "k"', 'say yy at 0', 'say yy at 1', 'say yy at "k"',
+               'say xx at 0 at 1', 'say xx at 1 at 0', 'say yy at 0 at 0', 'say xx at 0 is yy at 0']
+
+
 def c06(run):
     rng = run.rng
     n = run.n(700, 30000)
     run.rule = ('histories over 3 variables: build an array (sequence, dictionary part, nested cell), copy it (assignment, through another '
                 'array, through a function argument/return, through a dictionary cell), mutate the original (index writes in range, at end, '
                 'far beyond, fractional, negative, non-numeric keys, nested subscripts, rock with lists, roll, join, overwrite, compound), '
-                'then print everything; model-free oracle: the copy prints the same with and without the mutation; plus direct Val API '
+                'then print everything; model-free oracle: the copy prints the same with and without the mutation; EVERY sequence of up to 3 '
+                '(quick) / 4 (thorough, sampled above 3) of %d array operations followed by a dump; plus direct Val API ' % len(ARRAY_OPS) +
                 'store/index/push/pop histories; non-trivial = the mutation succeeds; distinct by program text')
     cases = []
     for i in range(n):
@@ -1157,6 +1170,30 @@ def c06(run):
             elif ya[:min(len(ya), len(yb))] != yb[:min(len(ya), len(yb))]:
                 run.fail({'program': a, 'copy_after_mutation': ya, 'copy_without_mutation': yb},
                          'mutating an array changed a copy made earlier')
+    # bounded-exhaustive histories: EVERY sequence of up to 3 (quick) / 4 (thorough) operations from a vocabulary that has each
+    # kind of array operation once (two variables that are copied into one another, a scalar), followed by a dump of
+    # everything observable; tied to the model, which the C06 theorems are about
+    import itertools
+    L = 3 if run.tier == 'quick' else 4
+    hist = []
+    nops = len(ARRAY_OPS)
+    for k in range(1, L + 1):
+        for ops in itertools.product(ARRAY_OPS, repeat=k):
+            body = ARRAY_INIT + '\n'.join(ops) + '\n' + ARRAY_SAFE
+            if k <= 2:
+                hist += [body + o + '\n' for o in ARRAY_RISKY]
+            elif k == 3 or rng.random() < 250000 / nops ** 4:
+                hist.append(body + rng.choice(ARRAY_RISKY) + '\n')
+    hreqs = [run_req(h) for h in hist]
+    hm, him = run.tie(hreqs, proj=proj_run, functional=True, desc=lambda i: {'program': hist[i], 'section': 'bounded-exhaustive'})
+    for h, r in zip(hist, him):
+        if r is None:
+            continue
+        c = run_parts(r)[0]
+        run.case(('hist', h), True, kind='bounded-exhaustive', outcome=c)
+        if c in ('crash', 'hang'):
+            run.fail({'program': h, 'answer': r[:200]}, 'array program crashes')
+    run.extra['small_scope'] = {'operations': len(ARRAY_OPS), 'exhaustive_up_to_length': 3, 'histories': len(hist)}
     # direct API histories
     U = progs.universe()
     arrs = [u for u in U if u.startswith('[')] + ['u']
